@@ -1,5 +1,6 @@
 import MosnVerif.Lemmas.FrameChk
 import MosnVerif.Model.FrameSpec
+import MosnVerif.Lemmas.FrameH2
 /-!
 # C08 — malformed input is contained (property theorems only)
 
@@ -50,6 +51,17 @@ theorem kv_validated_decode_safe (fuel : Nat) (b : Bytes) (i k : Nat) (h : check
 
 /-- each decoded pair consumed at least 8 bytes of the block: the table never has more slots than bytes/8 -/
 theorem kv_alloc_bounded (b : Bytes) (p : Nat) (h : safe b = .ok p) : 8 * p ≤ b.length := safe_pairs b p h
+
+/-- **http2_no_overread_partial**: the HTTP/2 frame extraction (`ReadPreface`, `MFramer.ReadFrame` incl.
+HEADERS+CONTINUATION groups) never reports an item that drains nothing or more than was received, in either state, on
+every byte string, for every behaviour of the payload parsers and HPACK.
+Partial: this is the drained-length half of the statement; the HTTP/2 model reads with total accessors guarded by the
+regenerated length tests, not with checked access, so "no out-of-range read" is not separately proved for it, and the
+frame-type payload parsers / HPACK decoder are oracles (exercised by the correspondence run under panic recovery). -/
+theorem http2_no_overread_partial (maxRead : Nat) (parseOk groupOk : Bytes → Bool) (st : Bool) (b : Bytes)
+    (f : Option Bytes × Bool) (n : Nat)
+    (h : MosnVerif.Model.FrameH2.h2Step maxRead parseOk groupOk st b = .frame f n) : 0 < n ∧ n ≤ b.length :=
+  (MosnVerif.Model.FrameH2.h2Step_stable maxRead parseOk groupOk).pos st b f n h
 
 def toOutcome : Out → Outcome
   | .needMore => .needMore 0
